@@ -15,7 +15,7 @@ MUTATOR_KINDS = ["create_block", "create_group", "create_array", "create_tag", "
                  "create_source", "create_section", "create_property", "append_dim", "delete_dims", "link_dim",
                  "set_attr", "set_dim", "link_append", "link_remove", "set_metadata", "del_metadata", "set_role",
                  "delete", "prop_values", "set_odml", "sec_dict", "data_write", "data_assign", "data_append",
-                 "data_resize", "force_ts"]
+                 "data_resize", "force_ts", "create_frame", "df_op", "unlink_dim"]
 
 
 @op("ro_session")
@@ -32,6 +32,8 @@ class RoSession:
             if o is None:
                 continue
             if kind == "sec_dict" and o.get("how") in ("get", "contains", "iter"):
+                continue
+            if kind == "df_op" and o.get("how") == "read":
                 continue
             o["dt"] = 1
             muts.append(o)
@@ -182,7 +184,8 @@ class Crash:
 
     def gen(self, run, rng):
         return {"op": "crash", "how": P.pick(rng, ["flush", "flush", "close"]),
-                "reads_before_kill": rng.random() < 0.3, "reopen": P.pick(rng, ["ro", "rw", "both"])}
+                "reads_before_kill": rng.random() < 0.3, "reopen": P.pick(rng, ["ro", "rw", "both"]),
+                "blind": rng.random() < 0.5}
 
     def do(self, run, o):
         fs = run.fstate()
@@ -190,7 +193,11 @@ class Crash:
             return res(NOOP)
         disk = run.world.fs[fs.path]
         w0 = disk.bytes_written
-        intro = K.walk_introspect(fs.real)
+        # "blind": nothing at all is read through the File before the flush, so that the flush is
+        # exercised exactly as a writer loop would call it (the state is then judged by the model only)
+        intro = None if o.get("blind") else K.walk_introspect(fs.real)
+        if o.get("blind"):
+            run.stats["crash_blind"] += 1
         if o["how"] == "flush":
             run.expect_ok(run.call(fs.real.flush), "flush")
             snap = disk.snapshot()
@@ -234,7 +241,7 @@ class Crash:
             if d is not None:
                 run.violation("crash_recovery", "crash_" + o["how"], "state_lost:" + K.diff_class(d),
                               "after kill + reopen(%s) at %s: file=%s, state at flush=%s" % (mode, d[0], d[1], d[2]))
-            d = K.deep_diff(K.walk_introspect(fs.real), intro)
+            d = None if intro is None else K.deep_diff(K.walk_introspect(fs.real), intro)
             if d is not None:
                 run.violation("crash_recovery", "crash_" + o["how"], "introspect:" + K.diff_class(d),
                               "after kill + reopen(%s) at %s: file=%s, at flush=%s" % (mode, d[0], d[1], d[2]))
